@@ -459,20 +459,51 @@ def law_key_functions(ctx):
     """C14.R2 (rewriter half): the key function of every argument is the one the per-position selector chose."""
     m, loc = rw_loc(ctx)
     t, sites = _sites(ctx)
+    # what the emitted helper names denote: the re-compiler plants them in the method's globals
+    rc = A.recompiler(ctx.repo)
+    sub = A.subtler_fn(ctx.repo)
+    denotes = {"type": "type"}
+    for st in ast.walk(rc.node):
+        if isinstance(st, ast.Assign) and len(st.targets) == 1 and isinstance(st.targets[0], ast.Subscript) and isinstance(st.targets[0].value, ast.Attribute) and st.targets[0].value.attr == "__globals__" and isinstance(st.targets[0].slice, ast.Constant) and isinstance(st.value, ast.Name):
+            denotes[st.targets[0].slice.value] = st.value.id
     bad = []
     for (name, is_method), (node, res, s) in sites.items():
         if s is None:
             continue
-        kf = s.key_funcs
+        kf = {k: denotes.get(v, v) for k, v in s.key_funcs.items()}
         # the table given to the scenarios: position 0 and keyword K0 are type-valued, position 1 is not
-        if kf.get(1) != "type" or kf.get(0) in (None, "type") or kf.get("K0") in (None, "type") or kf.get(0) != kf.get("K0"):
-            bad.append(f"{name} (method={is_method}): key functions {kf}")
+        if kf.get(1) != "type" or kf.get(0) != sub.name or kf.get("K0") != sub.name:
+            bad.append(f"{name} (method={is_method}): key functions {s.key_funcs} (denoting {kf})")
     ctx.ob(
         f"{m.key}:key-selector",
         loc,
         "rewritten call sites key each argument with the function the per-position selector chose for that position / keyword name (selector table: 0 and 'k0' type-valued, 1 plain)",
         not bad,
         "; ".join(bad[:2]) + ": recurse/call_next key type-valued arguments differently from the entry point (a class passed at that position is looked up as its metaclass, or the reverse)",
+    )
+
+
+def law_helper_names_private(ctx):
+    """C09: the helper names a rewritten call site uses are planted by the re-compiler under names no method body
+    binds by accident (a builtin's name can be a parameter or local of the method)."""
+    m, loc = rw_loc(ctx)
+    t, sites = _sites(ctx)
+    rc = A.recompiler(ctx.repo)
+    planted = set()
+    for st in ast.walk(rc.node):
+        if isinstance(st, ast.Assign) and len(st.targets) == 1 and isinstance(st.targets[0], ast.Subscript) and isinstance(st.targets[0].value, ast.Attribute) and st.targets[0].value.attr == "__globals__" and isinstance(st.targets[0].slice, ast.Constant):
+            planted.add(st.targets[0].slice.value)
+    used = set()
+    for (name, is_method), (node, res, s) in sites.items():
+        if s is not None:
+            used |= set(s.key_funcs.values())
+    loose = sorted(n for n in used if n not in planted)
+    ctx.ob(
+        f"{m.key}:helper-names-planted",
+        loc,
+        f"every helper a rewritten call site calls ({', '.join(sorted(used))}) is a global planted by the re-compiler",
+        not loose,
+        f"the rewritten site calls {loose} by a name the re-compiler does not plant: a parameter or local of the method with that name (`def f(x, type=...)`) is called instead",
     )
 
 
